@@ -87,6 +87,16 @@ def core_info(mod: Module, cls: str, ctx: T.Optional[RuleCtx] = None) -> CoreInf
                     ctx.violation(mod, f'{cls}.{dunder}', r.path.events[-1].node if r.path.events else fn, f'{dunder} can leave by {r.outcome} (returns None instead of a verdict)')
                 continue
             ret = ast.parse(r.outcome[1], mode='eval').body
+            three_way: T.Optional[str] = None
+            if isinstance(ret, ast.Compare) and len(ret.ops) == 1:
+                # `core(..) < 0`: the core answers negative / zero / positive and the dunder compares that with 0
+                l0, r0 = ret.left, ret.comparators[0]
+                names3 = {ast.Lt: 'lt', ast.Gt: 'gt', ast.LtE: 'le', ast.GtE: 'ge'}
+                mirror = {'lt': 'gt', 'gt': 'lt', 'le': 'ge', 'ge': 'le'}
+                if type(ret.ops[0]) in names3 and isinstance(r0, ast.Constant) and r0.value == 0 and isinstance(l0, ast.Call):
+                    three_way, ret = names3[type(ret.ops[0])], l0
+                elif type(ret.ops[0]) in names3 and isinstance(l0, ast.Constant) and l0.value == 0 and isinstance(r0, ast.Call):
+                    three_way, ret = mirror[names3[type(ret.ops[0])]], r0
             res = _bind_core_call(mod, cls, ret) if isinstance(ret, ast.Call) else None
             if res is None:
                 raise Undecided(f'{cls}.{dunder}: comparison result is not a call of a core method/function: {r.outcome[1]}')
@@ -95,9 +105,16 @@ def core_info(mod: Module, cls: str, ctx: T.Optional[RuleCtx] = None) -> CoreInf
             oursp = [pn for pn, x in bound.items() if pn not in opsp and 'self' in names_in(x) and 'ARG1' not in names_in(x)]
             theirsp = [pn for pn, x in bound.items() if pn not in opsp and 'ARG1' in names_in(x) and 'self' not in names_in(x)]
             rest = [pn for pn in bound if pn not in opsp + oursp + theirsp]
-            if len(opsp) != 1 or rest or len(oursp) + len(theirsp) != 2:
+            if three_way is not None:
+                if opsp or rest or len(oursp) + len(theirsp) != 2:
+                    raise Undecided(f'{cls}.{dunder}: cannot read the three-way call in {r.outcome[1]}')
+                if ctx is not None:
+                    ctx.require(three_way == op, f'{cls}.{dunder} compares the three-way result of the core with 0 by `{op}`', mod, f'{cls}.{dunder}', ret,
+                                f'{dunder} must test the three-way result with `{op} 0`, tests it with `{three_way} 0`: {r.outcome[1]}')
+                opsp = ['']
+            elif len(opsp) != 1 or rest or len(oursp) + len(theirsp) != 2:
                 raise Undecided(f'{cls}.{dunder}: cannot tell the operands from the comparator in {r.outcome[1]}')
-            if ctx is not None:
+            elif ctx is not None:
                 ctx.require(attr_chain(bound[opsp[0]]) == f'operator.{op}', f'{cls}.{dunder} passes operator.{op} to the core', mod, f'{cls}.{dunder}', ret,
                             f'{dunder} must compare with operator.{op}, passes {attr_chain(bound[opsp[0]])}')
             if len(theirsp) != 1:
@@ -300,6 +317,103 @@ def zip_operands(mod: Module, cls: str, core: str = '') -> T.Tuple[str, str, str
     return own_chain, theirs[0], info.theirs
 
 
+def _three_way_keys(ctx: RuleCtx, mod: Module, qn: str, fn: T.Any, info: 'CoreInfo', argname: T.Dict[str, str]) -> T.List[T.Tuple[str, str]]:
+    """Ranking keys of a core that answers negative / zero / positive (the dunders compare the answer with 0).
+    A loop row that returns a constant of known sign under `f(ours) != f(theirs)` and one more test tells the direction
+    of key f: `f(ours) < f(theirs)` -> negative is ascending; for a boolean key `f(ours)` true -> negative is descending.
+    The result after the loop is `g(ours) - g(theirs)` (ascending) or the reverse."""
+    ours_p, other = info.ours, info.theirs
+    loops = [s for s in fn.body if isinstance(s, ast.For)]
+    if len(loops) != 1:
+        raise Undecided(f'{qn}: expected exactly one component loop')
+    loop = loops[0]
+    it = loop.iter
+    if not (isinstance(it, ast.Call) and norm(it.func) == 'zip' and len(it.args) == 2 and isinstance(loop.target, ast.Tuple) and len(loop.target.elts) == 2):
+        raise Undecided(f'{qn}: component loop is not `for a, b in zip(x, y)`')
+    sides: T.Dict[str, str] = {ours_p: 'ours', other: 'theirs'}
+    for pn, sd in ((ours_p, 'ours'), (other, 'theirs')):
+        if pn in argname:
+            sides[argname[pn]] = sd
+    for arg, tgt in zip(it.args, loop.target.elts):
+        rd = names_in(arg)
+        if ours_p in rd and other not in rd:
+            sides['=' + tgt.id] = 'ours'        # type: ignore[attr-defined]
+        elif other in rd and ours_p not in rd:
+            sides['=' + tgt.id] = 'theirs'      # type: ignore[attr-defined]
+        else:
+            raise Undecided(f'{qn}: cannot attribute zip argument {short(arg)} to one operand')
+
+    def proj(text: str) -> T.Tuple[str, T.Set[str]]:
+        sd = _Side(sides)
+        return norm(sd.visit(ast.parse(text, mode='eval').body)), sd.seen
+
+    def sign(text: str) -> T.Optional[int]:
+        try:
+            v = ast.literal_eval(text)
+        except (ValueError, SyntaxError):
+            return None
+        return (v > 0) - (v < 0) if isinstance(v, int) and not isinstance(v, bool) and v != 0 else None
+    found: T.Dict[str, T.Set[str]] = {}
+    order: T.List[str] = []
+    tab = tables.extract(fn, body=loop.body, name=qn + ':loop', inline=False)
+    for r in tab.rows:
+        if r.outcome[0] in ('fall', 'continue'):
+            continue
+        sg = sign(r.outcome[1]) if r.outcome[0] == 'return' else None
+        if sg is None:
+            raise Undecided(f'{qn}: cannot read the three-way result of row {r!r}')
+        # the guard `f(ours) != f(theirs)` of this row (the last inequality on the path)
+        guards = [a for a, v in r.conds.items() if a.kind == 'cmp' and a.args[0] == 'eq' and v is False]
+        if not guards:
+            raise Undecided(f'{qn}: row {r!r} returns a verdict without a test that the two projections differ')
+        g = guards[-1]
+        (p1, s1), (p2, s2) = proj(g.args[1]), proj(g.args[2])
+        if p1 != p2 or s1 == s2 or len(s1) != 1 or len(s2) != 1:
+            raise Undecided(f'{qn}: cannot read the guard {g!r} of row {r!r}')
+        key = p1
+        for a, v in r.conds.items():          # earlier keys must be known equal
+            if a.kind == 'cmp' and a.args[0] == 'eq' and v is True:
+                continue
+        direction: T.Optional[str] = None
+        for a, v in r.conds.items():
+            if a.kind == 'cmp' and a.args[0] == 'lt':
+                (q1, t1), (q2, t2) = proj(a.args[1]), proj(a.args[2])
+                if q1 == q2 == key and t1 != t2 and len(t1) == len(t2) == 1:
+                    ours_less = v if t1 == {'ours'} else not v          # f(ours) < f(theirs)  (the guard excludes equality)
+                    direction = 'asc' if ours_less == (sg < 0) else 'desc'
+            elif a.kind in ('truth', 'isinstance'):
+                txt = a.args[0] if a.kind == 'truth' else f'isinstance({a.args[0]}, {", ".join(a.args[1])})'
+                q, t = proj(txt)
+                if q == key and len(t) == 1:
+                    ours_true = v if t == {'ours'} else not v             # boolean key: exactly one side is true under the guard
+                    direction = 'desc' if ours_true == (sg < 0) else 'asc'
+        if direction is None:
+            raise Undecided(f'{qn}: cannot tell the direction of key {key} from row {r!r}')
+        found.setdefault(key, set()).add(direction)
+        if key not in order:
+            order.append(key)
+            for pk in order[:-1]:
+                known = any(a.kind == 'cmp' and a.args[0] == 'eq' and v is True and proj(a.args[1])[0] == pk for a, v in r.conds.items())
+                ctx.require(known, f'{qn}: key {key} is consulted only when {pk} is equal', mod, qn, r.path.events[-1].node,
+                            f'key {key} decides although the earlier key {pk} may differ: {r!r}')
+    keys: T.List[T.Tuple[str, str]] = []
+    for k in order:
+        ctx.require(len(found[k]) == 1, f'{qn}: the rows of key {k} agree on its direction', mod, qn, f'key {k}',
+                    f'the rows that decide on {k} rank it both ways ({sorted(found[k])}): the answer is not antisymmetric')
+        keys.append((k, sorted(found[k])[0]))
+        ctx.ok(f'{qn}: three-way key {k} ({keys[-1][1]})')
+    after = fn.body[fn.body.index(loop) + 1:]
+    if len(after) != 1 or not isinstance(after[0], ast.Return) or not isinstance(after[0].value, ast.BinOp) or not isinstance(after[0].value.op, ast.Sub):
+        raise Undecided(f'{qn}: expected `return g(ours) - g(theirs)` after the component loop')
+    sides2 = {k: v for k, v in sides.items() if not k.startswith('=')}
+    sa, sb = _Side(sides2), _Side(sides2)
+    ta, tb = norm(sa.visit(copy.deepcopy(after[0].value.left))), norm(sb.visit(copy.deepcopy(after[0].value.right)))
+    if ta != tb or sa.seen == sb.seen or len(sa.seen) != 1 or len(sb.seen) != 1:
+        raise Undecided(f'{qn}: cannot read the difference {short(after[0].value)}')
+    keys.append((ta, 'asc' if sa.seen == {'ours'} else 'desc'))
+    return keys
+
+
 def ranking_keys(ctx: RuleCtx, mod: Module, cls: str, core: str = '') -> T.List[T.Tuple[str, str]]:
     """Extract [(projection, direction)] from the comparison core (method or module-level function).
 
@@ -312,6 +426,8 @@ def ranking_keys(ctx: RuleCtx, mod: Module, cls: str, core: str = '') -> T.List[
     qn = f'{cls}.{name}' if info.is_method else name
     argname = {k: v.id for k, v in tables._param_map(fn).items()}       # type: ignore[attr-defined]
     ours_p, other, comparator = info.ours, info.theirs, info.comparator
+    if comparator == '':
+        return _three_way_keys(ctx, mod, qn, fn, info, argname)
     sk = _sort_key_form(fn, info)
     if sk is not None:
         # `comparator([key(c) for c in ours], [key(c) for c in theirs])`: sequences compare lexicographically - the first pair of
